@@ -55,19 +55,17 @@ def _replay(ctx, path):
     for pl in path:
         act, args = json.loads(pl)
         if act == "Make":
-            ctx.tree = B.make(ctx, args[0])
+            ctx.tree = B.make(ctx, *args)
         else:
-            res = B.call(ctx, act, args)
-            if act not in B.OBSERVE_ONLY:
-                ctx.tree = res
+            ctx.advance(act, B.call(ctx, act, args))
 
 
 def _run_variant(variant, fkey, lab, path, allowed, want_observed):
     """-> dict(to, issues, drift, unsupported) for one name class."""
     act, args = json.loads(lab)
-    ctx = B.Ctx(variant)
+    ctx = B.new_ctx(variant)
     out = {"variant": variant, "issues": [], "to": None, "unsupported": False, "drift": None, "not_run": False}
-    if (variant in B.RT_ONLY_CLASSES and act not in B.RT_ACTS) or (act in B.PLAIN_ONLY_ACTS and variant != "plain") \
+    if (variant in B.RT_ONLY_CLASSES and act not in B.RT_ACTS) or (variant in B.TWIN_CLASSES and act not in B.TWIN_ACTS) or (act in B.PLAIN_ONLY_ACTS and variant != "plain") \
             or (_G.get("light") and act in B.NAME_BLIND_ACTS and variant != "plain"):
         out["not_run"] = True
         return out
@@ -79,13 +77,14 @@ def _run_variant(variant, fkey, lab, path, allowed, want_observed):
     recv = before = after = None
     if act == "Make":
         try:
-            res = ctx.tree = B.make(ctx, args[0])
+            res = ctx.tree = B.make(ctx, *args)
         except Exception as ex:
             out["issues"].append((f"raises:{type(ex).__name__}", {"exception": repr(ex)}))
             return out
     else:
         recv = ctx.tree
         before = B.snapshot(ctx, recv)
+        names_before = B.namemap(recv) if act in B.NAME_KEEPING else None
         res = None
         try:
             res = B.call(ctx, act, args)
@@ -105,6 +104,15 @@ def _run_variant(variant, fkey, lab, path, allowed, want_observed):
             return out
         if res is recv and act not in B.IN_PLACE and act not in B.PLAIN_ONLY_ACTS:
             out["issues"].append(("returned-receiver", {}))
+    if act not in ("Bifurcating", "Query"):
+        # NamesUnique: every node of a result has its own name
+        # (bifurcating() documents name_unnamed= for that; its unnamed nodes are not judged here)
+        # (None = unnamed, e.g. what DndParser leaves on unlabelled nodes, is not a name)
+        names = [n.name for n in res.traverse() if n.name is not None]
+        if len(set(names)) != len(names):
+            out["issues"].append(("names-not-unique", {"names": [repr(n) for n in names]}))
+    if recv is not None and act in B.NAME_KEEPING and B.namemap(res) != names_before:
+        out["issues"].append(("names-changed", {"before": names_before, "after": B.namemap(res)}))
     _judge(ctx, act, res, fkey, allowed, out)
     if act == "Query" and B.snapshot(ctx, recv) != before:
         out["issues"].append(("receiver-modified", {"before": before, "after": B.snapshot(ctx, recv)}))
@@ -180,6 +188,9 @@ def _judge(ctx, act, res, fkey, allowed, out):
         if best is None or len(d) < len(best[0]):
             best = (d, t, eo)
     d, t, eo = best
+    if not d and ctx.twin is not None:
+        out["to"] = t       # names of this class are the code's own: only observations are compared
+        return
     if d:
         out["issues"].append((",".join(d), {"expected": eo, "expected_struct_key": t}))
     else:
